@@ -908,6 +908,9 @@ func propC30(c *Check) {
 	ruleR30_3(c)
 	ruleR30_4(c)
 	ruleR30_5(c)
+	// the lease is read back with an ordinary Get: a window in which the key is in no level makes
+	// updateLease take "not found" for "no lease yet" and restart the sequence at 0
+	ruleR12_4(c)
 }
 
 // ---- C31 ----
@@ -1008,6 +1011,8 @@ func propC31(c *Check) {
 	ruleR01_3(c)
 	ruleR12_3(c)
 	ruleR15_4(c) // a GC rewrite keeps the merge bit of the operands it moves
+	ruleR06_2(c) // so does the write path for operands whose value goes to the value log (all meta bits carried)
+	ruleR05_4(c) // the fold reads the versions of exactly its key (key iterator: equality, not prefix)
 }
 
 // ---- C32 ----
